@@ -41,3 +41,22 @@ Proof.
   eexists. vm_compute. repeat split; reflexivity.
 Qed.
 Print Assumptions new_runtime_import_refuted.
+
+(* kf_rebind (inside kf_apply_extra): a hand-written stub imports the module (`import shapes`) and annotates with the
+   dotted name `shapes.Circle`; libcst rewrites the annotation to `Circle` and adds `from shapes import Circle` at module
+   level - an item the stub does not list, so it is not moved - after the source's own `from other import Circle`:
+   the name Circle is rebound at run time.  Reified real run (harness/props/C16.py, MODULE_STUBS). *)
+Theorem runtime_name_rebound_refuted :
+  exists stub src applied out,
+    wf_module src = true /\ embedsb src applied = true /\ confine stub src applied = Some out
+    /\ kf_apply_extra stub src applied = true /\ kf_rebind stub src applied = true
+    /\ existsb (fun it => negb (memb it (run_items src)) && smemb (item_bound it) (runtime_bound src))
+               (top_items out) = true.
+Proof.
+  exists [SImp (IImport [("shapes"%string, None)]); SComp "s" []].
+  exists [SImp (IFrom "other" [("Circle"%string, None)]); SComp "f" []].
+  exists [SImp (IFrom "__future__" [("annotations"%string, None)]); SImp (IFrom "other" [("Circle"%string, None)]);
+          SImp (IFrom "shapes" [("Circle"%string, None)]); SComp "f" []].
+  eexists. vm_compute. repeat split; reflexivity.
+Qed.
+Print Assumptions runtime_name_rebound_refuted.
